@@ -285,6 +285,23 @@ func sameSnap(a, b scheduler.VerifSnapshot) bool {
 	return true
 }
 
+// state takes the lock-consistent snapshot under a watchdog: if the scheduler mutex is held forever (a main loop
+// blocked inside process()), Schedule and Release would block as well - the case is reported as `blocked`.
+func (h *hcase) state() (scheduler.VerifSnapshot, bool) {
+	if h.dead {
+		return scheduler.VerifSnapshot{}, false
+	}
+	ch := make(chan scheduler.VerifSnapshot, 1)
+	go func() { ch <- h.s.VerifState() }()
+	select {
+	case s := <-ch:
+		return s, true
+	case <-time.After(callTimeout):
+		h.dead = true
+		return scheduler.VerifSnapshot{}, false
+	}
+}
+
 // settle drives the system to quiescence and returns the snapshot, or ok=false on timeout.
 // Each round "kicks" the mock clock (Add(0) under the scheduler mutex) unless a tick is already pending:
 // a mock timer armed at or before `now` only fires when the clock is moved, a real timer fires by itself.
@@ -296,9 +313,13 @@ func (h *hcase) settle(wantCkpts int) (snap scheduler.VerifSnapshot, ok bool) {
 	deadline := time.Now().Add(settleTimeout)
 	for {
 		if time.Now().After(deadline) {
-			return h.s.VerifState(), false
+			st, _ := h.state()
+			return st, false
 		}
-		pre := h.s.VerifState()
+		pre, alive := h.state()
+		if !alive {
+			return pre, false
+		}
 		if !pre.TickPending {
 			done := make(chan struct{})
 			go func() {
@@ -321,14 +342,20 @@ func (h *hcase) settle(wantCkpts int) (snap scheduler.VerifSnapshot, ok bool) {
 		}
 		g1 := h.gstates()
 		r0 := atomic.LoadInt64(&h.mc.reads)
-		a := h.s.VerifState()
+		a, alive := h.state()
+		if !alive {
+			return a, false
+		}
 		if g1.workersParked != g1.workers || !g1.loopFound {
 			time.Sleep(50 * time.Microsecond)
 			continue
 		}
 		if g1.loopParked {
 			g2 := h.gstates()
-			b := h.s.VerifState()
+			b, alive := h.state()
+			if !alive {
+				return b, false
+			}
 			if g2.loopParked && g2.workersParked == g2.workers && !a.TickPending && !b.TickPending && sameSnap(a, b) &&
 				atomic.LoadInt64(&h.mc.reads) == r0 && !pre.TickPending {
 				return b, true
@@ -345,7 +372,10 @@ func (h *hcase) settle(wantCkpts int) (snap scheduler.VerifSnapshot, ok bool) {
 			continue
 		}
 		g2 := h.gstates()
-		b := h.s.VerifState()
+		b, alive := h.state()
+		if !alive {
+			return b, false
+		}
 		if !g2.loopParked && g2.workersParked == g2.workers && sameSnap(a, b) && (pre.TickPending == b.TickPending) {
 			// spinning without effect; a pending tick stays pending
 			if !b.TickPending {
@@ -376,6 +406,9 @@ func (h *hcase) observe(status string, wantCkpts int) string {
 	snap, ok := h.settle(wantCkpts)
 	if !ok {
 		status = "unsettled"
+	}
+	if h.dead {
+		status = "blocked"
 	}
 	var q, ix []string
 	for _, it := range snap.Queue {
@@ -537,7 +570,11 @@ func (h *hcase) finish() {
 		h.r.mu.Unlock()
 		return
 	}
-	snap := h.s.VerifState()
+	snap, alive := h.state()
+	if !alive {
+		h.finish()
+		return
+	}
 	for id := range snap.Index {
 		call(func() error { return h.s.Release(id) })
 	}
